@@ -65,7 +65,24 @@ class Evaluator(Interp):
                 all_const = False
         if all_const:
             return SV(TStr, seq_concat(*parts) if len(parts) > 1 else (parts[0] if parts else z3.StringVal("")))
-        return SV(TStr, self.fresh("fstr", z3.StringSort()))
+        # plain {expr} pieces of int / bool / str values are formatted exactly (str()); anything else
+        # (format specs, conversions, objects) makes the whole string opaque
+        parts = []
+        for p in node.values:
+            if isinstance(p, ast.Constant):
+                parts.append(z3.StringVal(p.value))
+                continue
+            if not isinstance(p, ast.FormattedValue) or p.format_spec is not None or p.conversion != -1:
+                return SV(TStr, self.fresh("fstr", z3.StringSort()))
+            try:
+                v = self.force(self.eval(p.value, fr), fr)
+            except Unsupported:
+                return SV(TStr, self.fresh("fstr", z3.StringSort()))
+            if isinstance(v, SV) and v.ty in (TInt, TBool, TStr):
+                parts.append(self.cdb.builtins.b_str(self, [v], {}, fr).term)
+            else:
+                return SV(TStr, self.fresh("fstr", z3.StringSort()))
+        return SV(TStr, seq_concat(*parts) if len(parts) > 1 else parts[0])
 
     def e_Name(self, node, fr):
         n = node.id
